@@ -170,6 +170,16 @@ def _tc_histories(sp, tcm, check_pus_crc, c, app, want, tc):
         fresh2.calc_crc()
         eq(devs, f"hist.{tag}.calc_crc", bytes(fresh2.crc16), want[-2:])
         eq(devs, f"hist.{tag}.pack", bytes(build_tc(tcm, c, app).pack()), want)
+    # documented defaults (APID 0, count 0, source id 0, all four ack flags, no application data): two such telecommands are independent
+    d1 = tcm.PusTc(service=c["service"], subservice=c["subservice"])
+    d2 = tcm.PusTc(service=c["service"], subservice=c["subservice"])
+    wdef = RP.pus_tc(0, 0, c["service"], c["subservice"], 0, 0b1111, b"")
+    eq(devs, "hist.defaults.bytes", bytes(d1.pack()), wdef)
+    d1.to_space_packet()
+    d1.app_data = bytearray(b"\x01\x02")
+    d1.pack()
+    eq(devs, "hist.defaults.second_object_unaffected", bytes(d2.pack()), wdef)
+    eq(devs, "hist.defaults.third_object_unaffected", bytes(tcm.PusTc(service=c["service"], subservice=c["subservice"]).pack()), wdef)
     # caller-owned bytearray as application data, space-packet view taken (twice) before packing
     caller = bytearray(app)
     t = build_tc(tcm, c, caller)
